@@ -148,17 +148,114 @@ func c01PositionGate(c *Check, ci *cryptoInfo, vs []*verifier, v *verifier) {
 			_, isF := loadOfFieldVar(other, f)
 			return isF
 		}
-		want := func(cond ssa.Value, sl *Slice) bool {
-			if !sliceHasAnyParam(sl, fn, v.req) {
+		// a first-party helper that receives the proof and a request-derived bound and rejects
+		// unless proof.Start()/End() matches that bound (the check may live in the helper)
+		viaHelper := func(x ssa.Value) bool {
+			g, ok := x.(*ssa.Call)
+			if !ok {
 				return false
 			}
-			return sl.Has(isStartEnd) || sl.Has(isNilCmp)
+			h := g.Call.StaticCallee()
+			if h == nil || !p.FirstParty(h) || h.Blocks == nil {
+				return false
+			}
+			for i, a := range g.Call.Args {
+				if _, isF := loadOfFieldVar(a, f); !isF {
+					continue
+				}
+				for _, j := range startEndBoundParams(h, i) {
+					if j < len(g.Call.Args) && sliceHasAnyParam(backSlice(g.Call.Args[j], SliceOpt{CallArgs: true}), fn, v.req) {
+						return true
+					}
+				}
+			}
+			return false
 		}
-		cut, desc := failGates(fn, want)
-		res := gateWalk(p, fn, tg, cut, nil)
-		c.Ob("R1.2", v.recvT.Obj().Name()+"."+f.Name()+"@"+fn.Name(), !res.Reached && !res.Overflow, p.Pos(fn.Pos()),
-			fmt.Sprintf("proof field %s: success only across a check binding its Start/End to the request, or relating its absence to the request (%d such checks); otherwise the responder chooses how the row is verified", f.Name(), len(desc)), res.Witness...)
+		bindCut, bindDesc := failGates(fn, func(cond ssa.Value, sl *Slice) bool {
+			if sl.Has(viaHelper) {
+				return true
+			}
+			// binding a position means equality: an inequality (coverage) test leaves the position open
+			return isEqualityTest(cond) && sliceHasAnyParam(sl, fn, v.req) && sl.Has(isStartEnd)
+		})
+		nilCut, nilDesc := failGates(fn, func(cond ssa.Value, sl *Slice) bool {
+			return sliceHasAnyParam(sl, fn, v.req) && sl.Has(isNilCmp)
+		})
+		// canonical key of "field == nil" for seeding the two scenarios
+		kk := newKeyer(fn)
+		nilKey := ""
+		for _, b := range fn.Blocks {
+			for _, ins := range b.Instrs {
+				if ld, ok := ins.(*ssa.UnOp); ok {
+					if _, isF := loadOfFieldVar(ld, f); isF {
+						if _, direct := ld.X.(*ssa.FieldAddr); direct {
+							nilKey = eqKey("nil", kk.key(ld))
+						}
+					}
+				}
+				if fl, ok := ins.(*ssa.Field); ok && fieldOfVal(fl) == f {
+					nilKey = eqKey("nil", kk.key(fl))
+				}
+			}
+		}
+		key := v.recvT.Obj().Name() + "." + f.Name() + "@" + fn.Name()
+		if nilKey == "" || strings.Contains(nilKey, "#") {
+			// no canonical key: fall back to the scenario-free form
+			res := gateWalk(p, fn, tg, orCuts(bindCut, nilCut), nil)
+			c.Ob("R1.2", key, !res.Reached && !res.Overflow, p.Pos(fn.Pos()),
+				fmt.Sprintf("proof field %s: success only across a check binding its Start/End to the request, or relating its absence to the request (%d+%d such checks)", f.Name(), len(bindDesc), len(nilDesc)), res.Witness...)
+			continue
+		}
+		resA := gateWalkFacts(p, fn, tg, bindCut, nil, nil, map[string]bool{nilKey: false})
+		c.Ob("R1.2", key, !resA.Reached && !resA.Overflow, p.Pos(fn.Pos()),
+			fmt.Sprintf("proof field %s present: success only across a rejecting check that binds its Start()/End() to the request (%d such checks, in the verifier or in a helper it hands the proof to); otherwise the responder chooses which positions the proof speaks about", f.Name(), len(bindDesc)), resA.Witness...)
+		resB := gateWalkFacts(p, fn, tg, nilCut, nil, nil, map[string]bool{nilKey: true})
+		c.Ob("R1.2", key+":absent", !resB.Reached && !resB.Overflow, p.Pos(fn.Pos()),
+			fmt.Sprintf("proof field %s absent: success only across a rejecting check that relates its absence to the request (%d such checks) or not at all; otherwise the responder chooses how the row is verified", f.Name(), len(nilDesc)), resB.Witness...)
 	}
+}
+
+// isEqualityTest: the branch condition is (a negation of) an == / != comparison.
+func isEqualityTest(cond ssa.Value) bool {
+	bo, ok := stripNot(cond).Base.(*ssa.BinOp)
+	return ok && (bo.Op == token.EQL || bo.Op == token.NEQ)
+}
+
+// startEndBoundParams: indexes j of h's parameters such that h rejects unless
+// Start()/End() of its proofIdx-th parameter matches a value derived from parameter j.
+func startEndBoundParams(h *ssa.Function, proofIdx int) []int {
+	if proofIdx >= len(h.Params) {
+		return nil
+	}
+	pp := h.Params[proofIdx]
+	var out []int
+	for _, b := range h.Blocks {
+		ifi, ok := b.Instrs[len(b.Instrs)-1].(*ssa.If)
+		if !ok || leadsToFailure(b.Succs[0], h) == leadsToFailure(b.Succs[1], h) {
+			continue
+		}
+		sl := backSlice(ifi.Cond, SliceOpt{CallArgs: true, PhiControl: true})
+		usesStartEnd := sl.Has(func(x ssa.Value) bool {
+			g, ok := x.(*ssa.Call)
+			if !ok {
+				return false
+			}
+			o := calleeObj(&g.Call)
+			if o == nil || pkgPathOf(o) != pkgNmt || (o.Name() != "Start" && o.Name() != "End") || len(g.Call.Args) == 0 {
+				return false
+			}
+			return backSlice(g.Call.Args[0], SliceOpt{}).Vals[pp]
+		})
+		if !usesStartEnd || !isEqualityTest(ifi.Cond) {
+			continue
+		}
+		for j, q := range h.Params {
+			if j != proofIdx && sl.Vals[q] {
+				out = append(out, j)
+			}
+		}
+	}
+	return out
 }
 
 func loadOfFieldVar(v ssa.Value, f *types.Var) (ssa.Value, bool) {
